@@ -67,7 +67,7 @@ def run(prog: Program, col: Collector, tier: str, refs: Optional[Refs] = None, c
     col.rule("R01.18", "axis labels for a tensor's array are generated in the order of that tensor's own inputs", floor=2)
     c06._axis_labels_in_layout_order(prog, col, refs, cat)
     algebra.r_operand_returned_unchanged(prog, col, refs, cat, "R01.19")
-    col.rule("R01.20", "a renaming set that is filtered by a test on itself is filtered to a fixpoint", floor=1)
+    col.rule("R01.20", "a renaming set that is filtered by a test on itself is filtered to a fixpoint", floor=0)
     from . import c04
     c04._self_referential_filter(prog, col, refs, cat)
     # eager evaluation of Number operands runs the scalar implementation of an op, of Tensor operands the array one: they must agree
